@@ -78,6 +78,11 @@ MUTANTS = [
     M("diminish-keeps-writeable-known", D,
       "        if not node.is_unknown() and node.is_readonly():\n            return node\n",
       "        if not node.is_unknown() or node.is_readonly():\n            return node\n", "C18.5"),
+    M("second-factory-in-dirnode", D,
+      "    def _create_readonly_node(self, node, name):\n",
+      "    def _child_from_entry(self, rwcapdata, ro_uri):\n"
+      "        return self._nodemaker.create_from_cap(rwcapdata or None, ro_uri)\n\n"
+      "    def _create_readonly_node(self, node, name):\n", "C18.5"),
     # ---- C18.6 writekey only for writeable caps
     M("writekey-for-any-mutable-cap", MF,
       "        if not filecap.is_readonly() and filecap.is_mutable():\n            self._writekey = self._uri.writekey\n",
